@@ -219,7 +219,7 @@ def run(tier):
                    u: U  it: I }
       type Mutation { m(x: Int): Int }
       type Subscription { a: Int  o: Query }
-      enum E { A B }  input In { a: Int! = 1  b: [In!]  c: E }
+      enum E { A B LONGER }  input In { a: Int! = 1  b: [In!]  c: E  longer: Int }
       interface I { a: Int }  type T implements I { a: Int  t: String }  union U = T | Query
     """)
     pool = exc_pool()
@@ -277,6 +277,62 @@ def run(tier):
                              {"relation": "request returns a well-formed result", "document": d,
                               "variables": repr(vars_), "operation_name": op, "raises": exc_name, "mode": mode,
                               "impl": bad})
+    # hostile variable values, type-directed: every value of the universe for a variable of every input type
+    import decimal
+    import fractions
+
+    class HostileRepr:
+        def __repr__(self):
+            raise RuntimeError("hostile __repr__")
+
+    class HostileHash:
+        __hash__ = None
+
+        def __eq__(self, other):
+            raise RuntimeError("hostile __eq__")
+
+    class DictSub(dict):
+        pass
+
+    class StrSub(str):
+        __slots__ = ()
+
+        def lower(self):
+            raise RuntimeError("hostile lower")
+
+    huge = 10 ** 5000
+    universe = [huge, -huge, 2 ** 31, -2 ** 31 - 1, 2 ** 53 + 1, float("nan"), float("inf"), -0.0, 1e308 * 10, "", "\u0130",
+                "\u0130\u0130\u0130", "a\u0130", "\ud800", "A", "a", "b", "1", "1e999", "0x10", " 1 ", "true", b"", bytearray(b"1"),
+                [], [[]], [huge], [None], [1, "\u0130"], {}, {"\u0130": 1}, {"a": huge}, {"c": "\u0130"}, {"c": "\u0130\u0130\u0130"}, {"\u0130\u0130\u0130": 1}, {"l\u0130nger": 1}, {"zz": 1}, {"A": 1}, {"aa": 1},
+                {"a": 1, "b": [{"a": 1, "c": "b"}]}, {"b": {"a": 1}}, {"b": [[]]}, DictSub(a=1), StrSub("A"), object(),
+                HostileRepr(), HostileHash(), (1, 2), {1, 2}, frozenset(), range(3), iter([1]), decimal.Decimal("1.5"),
+                fractions.Fraction(1, 3), 1j, True, False, None, type, len, NotImplemented, Ellipsis]
+    vtypes = [("Int", "s(n: 1) q: i(v: {a: $v})"), ("Int!", "s(n: $v)"), ("Float", "a"), ("String", "s(n: 1, x: $v)"),
+              ("Boolean", "a @skip(if: $v)" if False else "a"), ("ID", "a"), ("E", "i(v: {c: $v})"), ("In", "i(v: $v)"),
+              ("[Int!]", "a"), ("[In]", "a"), ("[[E!]]!", "a"), ("In!", "i(v: $v)")]
+    nhost = 0
+    for ty, sel in vtypes:
+        d = "query Q($v: %s) { %s }" % (ty, sel)
+        for val in universe:
+            root = {"a": 1, "s": (lambda *_a, **k: "x"), "i": (lambda *_a, **k: 1)}
+            try:
+                res = graphql_sync(schema, d, root_value=root, variable_values={"v": val})
+                bad = wf_response(res)
+            except Exception as e:  # noqa: BLE001
+                bad = f"graphql_sync raised {type(e).__name__}: {e!r}"[:200]
+            nreq += 1
+            nhost += 1
+            try:
+                rv = repr(val)[:60]
+            except Exception:  # noqa: BLE001
+                rv = type(val).__name__
+            ck.note_case(("hostile-var", ty, rv), nontrivial=True)
+            if bad:
+                ck.violation(f"hostile-variable:{ty}:{rv}",
+                             f"graphql_sync({d!r}, variables={{'v': {rv}}}): {bad}",
+                             {"relation": "request returns a well-formed result", "document": d,
+                              "variables": rv, "impl": bad})
+    ck.count("hostile_variable_requests", nhost)
     # every exception class of the pool, raised at a nullable and at a non-null position
     for mk in pool:
         for d, fld in (("{ a o { a } }", "a"), ("{ nn }", "nn"), ("{ o { o { nn } } a }", "nn"), ("mutation M { m }", "m")):
